@@ -523,6 +523,18 @@ class Cluster:
                 )
             raise exc
 
+    def _check_versions(self, reason):
+        current = self._get_config_version()
+        if self._config.version != current:
+            raise ConfigVersionMismatch(
+                f"expected={current} actual={self._config.version} {reason}"
+            )
+        current = self._get_job_status_version()
+        if self._job_status.version != current:
+            raise JobStatusVersionMismatch(
+                f"expected={current} actual={self._job_status.version} {reason}"
+            )
+
     def _get_config_version(self):
         with open(self._config_version_file, "r") as f_in:
             return int(f_in.read().strip())
@@ -620,6 +632,8 @@ class Cluster:
         hpc_job_ids,
         batch_index,
     ):
+        # Both files get written below. Reject a stale handle before changing either one.
+        self._check_versions("update_job_status")
         self._job_status.hpc_job_ids = hpc_job_ids
         self._job_status.batch_index = batch_index
         status_lookup = {x.name: x for x in self._job_status.jobs}
